@@ -2747,6 +2747,12 @@ class QuaternionArray(np.ndarray):
         if method.lower() not in ['chiaverini', 'hughes', 'itzhack', 'sarabandi', 'shepperd']:
             raise ValueError(f"Method '{method}' not available. Options are: 'chiaverini', 'hughes', 'itzhack', 'sarabandi', and 'shepperd'.")
         _assert_iterables(DCM, 'Direction Cosine Matrices')
+        # Same admission test as Quaternion.from_DCM, applied to every matrix
+        for R in DCM:
+            in_SO3 = np.isclose(np.linalg.det(np.atleast_2d(R)), 1.0)
+            in_SO3 &= np.allclose(R@R.T, np.identity(3))
+            if not in_SO3:
+                raise ValueError("Given Direction Cosine Matrices are not all in SO(3).")
         # Allocate local quaternion array
         quaternion_array = np.zeros((DCM.shape[0], 4))
         try:
